@@ -96,7 +96,7 @@ Definition d_lohg (x : sx) : option (lohg nat nat) :=
   | _ => None
   end.
 Definition d_backend (x : sx) : option Backend :=
-  match x with Sy "vec" => Some VecBackend | Sy "adv" => Some AdvBackend | _ => None end.
+  match x with Sy "vec" => Some VecBackend | Sy "adv" => Some AdvBackend | Sy "adv2" => Some Adv2Backend | _ => None end.
 Definition d_range (x : sx) : option range :=
   match x with
   | L [Sy "full"] => Some RFull
